@@ -1,6 +1,7 @@
 """C07 - shared-mutable-state audit (lockset style) over everything reachable from the
 per-stream entry points."""
 import re
+import shared
 from common import C, short, local_refs
 from cfg import path_leaf, path_fields
 
@@ -283,3 +284,38 @@ def run(db, cx):
           "from the per-stream entry points", not bad,
           "%d non-const registry/params methods in the reachable set, none mutating" % audited
           if not bad else "%d offending method(s)" % len(bad), "CoreParams")
+
+    # 4. per-stream staging state is per event: what a stream stages for one event must not leak
+    # into the next one (otherwise results depend on which stream ran which events before)
+    shared.primaries_handoff(db, cx, "C07.4-stream-staging")
+
+    # 5. begin_run is non-const by design and is invoked on the *shared* action object once per
+    # stream (from every Stepper constructor): whatever it writes into the action must be
+    # written under a lock
+    nbr = 0
+    for n_ in sorted(db.find(r"::begin_run(_impl)?$")):
+        for f in db.get(n_):
+            if f.name.startswith(C + "ActionSequence") or f.name.startswith(C + "ActionGroups"):
+                continue
+            sites = []
+            for (b, i, ev) in f.events():
+                p = None
+                if ev["e"] == "write":
+                    p = ev.get("path")
+                elif ev["e"] == "call" and not ev.get("constm", True):
+                    p = ev.get("recv", {}).get("path")
+                if p and p.get("root") == "this" and p.get("chain") and p["chain"][0].startswith("f:"):
+                    sites.append((b, i, ev, p["chain"][0][2:]))
+            if not sites:
+                continue
+            nbr += 1
+            unlocked = [(b, i, ev, fld) for (b, i, ev, fld) in sites if not locked(f, (b, i))]
+            flds = sorted(set(x[3].split("::")[-1] for x in unlocked))
+            cx.ob("C07.1-begin-run-writes", "%s writes its members under a lock" % f.name.replace(C, ""),
+                  not unlocked, ("unsynchronised: %s at %s" % (", ".join(flds), ", ".join(
+                      sorted(set(short(x[2]["loc"]) for x in unlocked))[:4]))) if unlocked else
+                  "%d member write(s), all lock-dominated" % len(sites), short(f.loc),
+                  why="begin_run runs once per stream on the one action object all streams share; "
+                      "streams are constructed concurrently (celer-sim builds transporters inside "
+                      "its OpenMP loop) while earlier streams may already be stepping and reading it")
+    cx.floor("begin_run implementations that write members", nbr, 2)
